@@ -517,6 +517,10 @@ func sutRunShard(bin, workerCmd string, shard []*Prog, extraEnv []string) (done 
 		started = ""
 	}
 	err := cmd.Wait()
+	if len(done) < len(shard) && started == "" && len(done) > 0 && err == nil {
+		// the worker left on purpose after reporting a program that can never end (deadlock): the caller restarts it
+		return done, nil
+	}
 	if len(done) < len(shard) {
 		id := shard[len(done)].ID
 		if started != "" && started != id {
